@@ -298,13 +298,13 @@ var f4Src = []string{"A", "N.A", "G()", "GN().A", "P.A", "E", "Emb.E", "GE()", "
 var f4Conv = []string{"I2I", "P2I", "I2IE", "I2S", "N2N", "ext.Itoa", "Other", "Missing"}
 
 type f4Meta struct {
-	Kind string
-	Line string // the notation line under test
-	Args int
-	Err  int
-	Style int
+	Kind    string
+	Line    string // the notation line under test
+	Args    int
+	Err     int
+	Style   int
 	CaseOff int
-	Extra string
+	Extra   string
 }
 
 func f4Cell(id, kind string, notes []string, args, err, style, caseOff int, extraMethods []scen.MethodDecl) *scen.Cell {
